@@ -182,10 +182,14 @@ class ModelObj:
         return f"ModelObj({self.kind})"
 
 
-class TrueDiv:
-    """a / b on symbolic ints; only int(a / b) is supported."""
+class TrueDiv(L.SymVal):
+    """a / b on symbolic ints (b != 0 established at the division); only int(a / b) is supported: truthiness,
+    equality and every other use are outside the model (SymVal: the generic rules answer Undecided)"""
     def __init__(self, a, b):
         self.a, self.b = a, b
+
+    def sym_type(self):
+        return float
 
 
 class Opaque:
@@ -252,7 +256,7 @@ class SStr(L.SymVal):
         if isinstance(other, str):
             other = SStr([other])
         if not isinstance(other, SStr):
-            return False
+            return L.unlike("str", other)
         return sstr_eq(self, other)
 
     def __repr__(self):
@@ -301,13 +305,15 @@ def _sstr_tokens(s):
             raise Undecided(f"ambiguous decimal adjacency in {s}")
         if x[0] == "lit" and x[1].endswith("-") and y[0] in ("dec", "digits"):
             raise Undecided(f"sign adjacency in {s}")
+        # an opaque part may begin or end with digits / a sign, and two adjacent opaque parts have no canonical split
+        if (x[0] == "ostr" and y[0] in ("dec", "digits", "ostr")) or (y[0] == "ostr" and x[0] in ("dec", "digits")):
+            raise Undecided(f"opaque text adjacent to a number or to other opaque text in {s}")
     return toks
 
 
 def sstr_eq(a, b):
     """equality of structured strings by canonical tokens (maximal digit runs / non-digit chunks /
-    decimal renderings / opaque parts).  A decimal rendering Dec(n) is one digit run only for n >= 0:
-    that side condition is part of the returned formula.  Different token structures: undecided."""
+    decimal renderings / opaque parts).  Different token structures: undecided."""
     ta, tb = _sstr_tokens(a), _sstr_tokens(b)
     if len(ta) != len(tb):
         raise Undecided(f"string equality of different shapes: {a} vs {b}")
@@ -331,10 +337,8 @@ def sstr_eq(a, b):
             conj.append(_ostr_eq(x[2], y[2]))
         else:
             raise Undecided(f"string equality of different shapes: {a} vs {b}")
-    # decimal renderings compared against digit runs / each other must be non-negative to be single runs
-    for x in ta + tb:
-        if x[0] == "dec" and is_sym(x[1]):
-            conj.append(x[1] >= 0)
+    # (str(n) is injective on all integers; a negative n carries its own '-', which the adjacency rules above keep
+    #  apart from the neighbouring literal, and a digit run never equals the rendering of a negative number)
     return land(*conj)
 
 
@@ -1385,8 +1389,17 @@ class Frame:
     def e_Compare(self, e):
         left = self.ev(e.left)
         res = []
-        for op, c in zip(e.ops, e.comparators):
-            right = self.ev(c)
+        for i, (op, c) in enumerate(zip(e.ops, e.comparators)):
+            try:
+                right = self.ev(c)
+            except PyRaise:
+                # a < b < c evaluates c only if a < b holds: the exception happens only on that branch
+                if i == 0:
+                    raise
+                prev = land(*res) if len(res) > 1 else res[0]
+                if self.ctx.branch(self.ctx.truthy(prev)):
+                    raise
+                return False
             res.append(compare(self.ctx, op, left, right))
             left = right
         return land(*res) if len(res) > 1 else res[0]
@@ -1502,7 +1515,19 @@ class Frame:
         return r
 
     def e_GeneratorExp(self, e):
-        r = self._comp(e, lambda: self.ev(e.elt))
+        # a generator is consumed lazily (any/all/next stop early): an element after the first that raises would not
+        # necessarily be evaluated by Python.  Elements are evaluated eagerly here; such a raise is outside the model.
+        seen = [0]
+
+        def elt():
+            seen[0] += 1
+            try:
+                return self.ev(e.elt)
+            except PyRaise as ex:
+                if seen[0] > 1:
+                    raise Undecided("element of a lazily consumed generator raised " + getattr(ex.exc_cls, "__name__", "?"))
+                raise
+        r = self._comp(e, elt)
         if isinstance(r, list):
             return tuple(r)
         return r
@@ -1676,6 +1701,8 @@ def binop(ctx, op, a, b):
                 return L.fmod(a_, b_)
             raise Undecided("mod by negative")
         if isinstance(op, ast.Div):
+            if ctx.branch(L.eq(b_, 0)):
+                raise PyRaise(ZeroDivisionError)
             return TrueDiv(a_, b_)
         if isinstance(op, ast.Pow):
             if not is_sym(b_) and b_ >= 0 and not is_sym(a_):
@@ -2166,6 +2193,8 @@ def builtin_method(ctx, kind, name, selfv, args, kwargs):
     if kind == "bytes":
         r = as_rope(selfv)
         if name == "hex":
+            if args or kwargs:
+                raise Undecided("bytes.hex with a separator")
             if r.is_concrete():
                 return r.native().hex()
             return HexStr(r)
@@ -2175,10 +2204,20 @@ def builtin_method(ctx, kind, name, selfv, args, kwargs):
     if kind == "int":
         if name == "to_bytes":
             n = selfv
-            length = args[0] if args else kwargs.get("length")
+            length = simplify_native(args[0] if args else kwargs.get("length", 1))
             order = args[1] if len(args) > 1 else kwargs.get("byteorder", "big")
             if is_sym(length):
                 raise Undecided("to_bytes with symbolic length")
+            if len(args) > 2 or set(kwargs) - {"length", "byteorder", "signed"}:
+                raise Undecided("to_bytes with unmodelled arguments")
+            if isinstance(length, bool) or not isinstance(length, int):
+                raise PyRaise(TypeError, "length must be an integer")
+            if length < 0:
+                raise PyRaise(ValueError, "length argument must be non-negative")
+            if order not in ("big", "little"):
+                if isinstance(order, str):
+                    raise PyRaise(ValueError, "byteorder must be either 'little' or 'big'")
+                raise Undecided("to_bytes byteorder")
             if kwargs.get("signed"):
                 raise Undecided("signed to_bytes")
             ok = land(n >= 0, n < 256 ** length)
@@ -2203,14 +2242,16 @@ class HexStr(L.SymVal):
         self.rope = rope
 
     def sym_eq(self, other):
+        if isinstance(other, HexStrUpper):
+            raise Undecided("lower-case hex text against upper-case hex text (equal iff no letters occur)")
         if isinstance(other, HexStr):
             return self.rope.eq(other.rope)
         if isinstance(other, str):
             try:
-                return self.rope.eq(bytes.fromhex(other)) if len(other) == 2 * len(self.rope) and other == other.lower() else False
+                return self.rope.eq(bytes.fromhex(other)) if len(other) == 2 * len(self.rope) and other == other.lower() and not any(c.isspace() for c in other) else False
             except ValueError:
                 return False
-        return False
+        return L.unlike("str", other)
 
     def sym_getattr(self, ctx, name):
         if name == "upper":
@@ -2222,12 +2263,21 @@ class HexStrUpper(HexStr):
     def sym_eq(self, other):
         if isinstance(other, HexStrUpper):
             return self.rope.eq(other.rope)
-        return False
+        if isinstance(other, HexStr):
+            raise Undecided("upper-case hex text against lower-case hex text (equal iff no letters occur)")
+        if isinstance(other, str):
+            try:
+                return self.rope.eq(bytes.fromhex(other)) if len(other) == 2 * len(self.rope) and other == other.upper() and not any(c.isspace() for c in other) else False
+            except ValueError:
+                return False
+        return L.unlike("str", other)
 
 
 def sstr_method(ctx, name, s, args, kwargs):
     if name == "split":
         sep = args[0] if args else None
+        if len(args) > 1 or kwargs:
+            raise Undecided("split with maxsplit / keyword arguments")
         if not isinstance(sep, str) or len(sep) != 1 or sep.isdigit() or sep == "-":
             raise Undecided("split of structured string")
         toks = [[]]
@@ -2246,6 +2296,10 @@ def sstr_method(ctx, name, s, args, kwargs):
         enc = args[0] if args else kwargs.get("encoding", "utf-8")
         if enc not in ("utf-8", "utf8"):
             raise Undecided("encode with " + str(enc))
+        if len(args) > 1 or set(kwargs) - {"encoding"}:
+            raise Undecided("encode with an error handler")
+        # ASSUMPTION U1 (DESIGN 2.8, reported in every evidence file): text inputs are well-formed Unicode, i.e.
+        # contain no lone surrogate code points; for those str.encode('utf-8') raises UnicodeEncodeError.
         t = pstr_term(s)
         f = z3.Function("utf8", PStr, z3.IntSort())
         g = z3.Function("utf8len", PStr, z3.IntSort())
